@@ -630,4 +630,221 @@ theorem held_poolRun (ops : List PoolOp) (p : Pool) (L : List LogItem) (h : Held
 theorem Held.init (e : Epoch) : Held ({ epoch := e } : Pool) [] :=
   ⟨Wired.init e, fun c hc => by cases hc⟩
 
+/-! ### per-slot-state predicates along the pool operations (generic) -/
+
+section generic
+variable (P : SlotState → Prop) (hnew : ∀ x, P { slot := x }) (hce : ∀ a b, CoreEq a b → P a → P b)
+include hnew hce
+
+theorem allSlots_addValidCert (p : Pool) (c : Cert) (hall : AllSlots p P)
+    (hadd : ∀ st, P st → st.slot = c.slot → P (st.addCert c)) : AllSlots (p.addValidCert c).1 P := by
+  have h0 := slotState_spec p c.slot P hall (hnew c.slot)
+  exact (addValidCert_tail p c P hnew hce (fun x hx _ => h0.1 x hx) (hadd _ h0.2.1 h0.2.2.1)).1
+
+theorem allSlots_addValidCerts (cs : List Cert) (p : Pool) (acc : List Event) (hall : AllSlots p P)
+    (hadd : ∀ c ∈ cs, ∀ st, P st → st.slot = c.slot → P (st.addCert c)) : AllSlots (p.addValidCerts cs acc).1 P := by
+  induction cs generalizing p acc with
+  | nil => exact hall
+  | cons c cs ih =>
+    unfold Pool.addValidCerts
+    dsimp only
+    exact ih _ _ (allSlots_addValidCert P hnew hce p c hall (hadd c List.mem_cons_self))
+      (fun c' hc' => hadd c' (List.mem_cons_of_mem _ hc'))
+
+theorem allSlots_addVoteQ (p : Pool) (v : Vote) (hall : AllSlots p P)
+    (hvote : ∀ st, P st → st.slot = v.slot → P (st.addVote p.epoch v).1) : AllSlots (addVoteQ p v) P := by
+  have h0 := slotState_spec p v.slot P hall (hnew v.slot)
+  unfold addVoteQ
+  rw [h0.2.2.2.1]
+  exact (putSlot_spec _ _ P h0.1 (hvote _ h0.2.1 h0.2.2.1)).1
+
+theorem allSlots_addVote (p : Pool) (v : Vote) (hall : AllSlots p P)
+    (hvote : ∀ st, P st → st.slot = v.slot → P (st.addVote p.epoch v).1)
+    (hadd : ∀ c ∈ addVoteCs p v, ∀ st, P st → st.slot = c.slot → P (st.addCert c)) : AllSlots (p.addVote v).1 P := by
+  rcases addVote_shape p v with ⟨h1 | h1, _⟩ | ⟨_, h2, _⟩
+  · rw [h1]; exact hall
+  · rw [h1]; exact (slotState_spec p v.slot P hall (hnew v.slot)).1
+  · rw [h2]
+    exact allSlots_addValidCerts P hnew hce _ _ [] (allSlots_addVoteQ P hnew hce p v hall hvote) hadd
+
+theorem allSlots_addCert (p : Pool) (c : Cert) (hall : AllSlots p P)
+    (hadd : ∀ st, P st → st.slot = c.slot → P (st.addCert c)) : AllSlots (p.addCert c).1 P := by
+  rcases addCert_shape p c with ⟨h1 | h1, _⟩ | ⟨_, h2, _⟩
+  · rw [h1]; exact hall
+  · rw [h1]; exact (slotState_spec p c.slot P hall (hnew c.slot)).1
+  · rw [h2]
+    exact allSlots_addValidCert P hnew hce _ c (slotState_spec p c.slot P hall (hnew c.slot)).1 hadd
+
+theorem allSlots_addWaiting (p : Pool) (par b : Nat × Nat) (hall : AllSlots p P) : AllSlots (Pool.addWaiting p par b) P := by
+  rw [AllSlots, (addWaiting_spec p par b).1]; exact hall
+
+theorem allSlots_addBlockTail (p : Pool) (b par : Nat × Nat) (e0 : List Event) (cert : Bool) (hall : AllSlots p P) :
+    AllSlots (Pool.addBlockTail p b par e0 cert).1 P := by
+  unfold Pool.addBlockTail
+  split
+  · have k0 := slotState_spec p b.1 P hall (hnew b.1)
+    split
+    · exact k0.1
+    · rename_i st' evs hn
+      have hce' := notifyParentCertified_core (p.slotState b.1).1.epoch (p.slotState b.1).2 b.2 st' evs hn
+      have k1 := putSlot_spec (p.slotState b.1).1 st' P k0.1 (hce _ _ hce' k0.2.1)
+      split
+      · exact allSlots_addWaiting P hnew hce _ _ _ k1.1
+      · exact k1.1
+  · exact allSlots_addWaiting P hnew hce _ _ _ hall
+
+theorem allSlots_addBlock (p : Pool) (b par : Nat × Nat) (hall : AllSlots p P)
+    (hpk : ∀ st, P st → P (st.notifyParentKnown b.2)) : AllSlots (p.addBlock b par).1 P := by
+  unfold Pool.addBlock
+  split
+  · exact hall
+  split
+  · exact hall
+  rename_i t ev _
+  have h1 := applyPr_spec { p with fin := t } (ParentReady.handleFinalization p.pr ev) P hall
+  have h2 := prune_spec _ P h1.1
+  dsimp only
+  generalize (({ p with fin := t } : Pool).applyPr (ParentReady.handleFinalization p.pr ev)).1.prune = q at h2
+  split
+  · exact h2.1
+  · have g0 := slotState_spec q b.1 P h2.1 (hnew b.1)
+    have g1 := putSlot_spec (q.slotState b.1).1 ((q.slotState b.1).2.notifyParentKnown b.2) P g0.1 (hpk _ g0.2.1)
+    exact allSlots_addBlockTail P hnew hce _ b par _ _ g1.1
+
+end generic
+
+/-! ### every held certificate was logged -/
+
+/-- the certificate stores of a slot state are well-formed: right kind in each store, the state's own slot -/
+def WF (st : SlotState) : Prop :=
+  (∀ c, st.cNotar = some c → c.kind = .notar ∧ c.slot = st.slot) ∧
+  (∀ c ∈ st.cNf, c.kind = .nf ∧ c.slot = st.slot) ∧
+  (∀ c, st.cSkip = some c → c.kind = .skip ∧ c.slot = st.slot) ∧
+  (∀ c, st.cFf = some c → c.kind = .ff ∧ c.slot = st.slot) ∧
+  (∀ c, st.cFin = some c → c.kind = .final ∧ c.slot = st.slot)
+
+/-- **held ⇒ logged** (and well-formed) -/
+def HL (L : List LogItem) (st : SlotState) : Prop := WF st ∧ ∀ c ∈ st.certs, LogItem.cert c ∈ L
+
+theorem HL.fresh (L : List LogItem) (x : Nat) : HL L { slot := x } := by
+  refine ⟨⟨?_, ?_, ?_, ?_, ?_⟩, ?_⟩ <;> intro c hc <;> simp [SlotState.certs] at hc
+
+theorem HL.of_certsEq {L : List LogItem} {a b : SlotState} (h : CertsEq a b) (i : HL L a) : HL L b := by
+  obtain ⟨⟨w1, w2, w3, w4, w5⟩, hl⟩ := i
+  obtain ⟨e0, e1, e2, e3, e4, e5⟩ := h
+  refine ⟨⟨?_, ?_, ?_, ?_, ?_⟩, ?_⟩
+  · rw [← e1, ← e0]; exact w1
+  · rw [← e2, ← e0]; exact w2
+  · rw [← e3, ← e0]; exact w3
+  · rw [← e4, ← e0]; exact w4
+  · rw [← e5, ← e0]; exact w5
+  · rw [← (CertsEq.certs ⟨e0, e1, e2, e3, e4, e5⟩)]; exact hl
+
+theorem HL.mono {L L' : List LogItem} (hs : ∀ x, x ∈ L → x ∈ L') {st : SlotState} (i : HL L st) : HL L' st :=
+  ⟨i.1, fun c hc => hs _ (i.2 c hc)⟩
+
+theorem HL.addCert {L : List LogItem} {st : SlotState} {c : Cert} (i : HL L st) (hm : LogItem.cert c ∈ L)
+    (hs : st.slot = c.slot) : HL L (st.addCert c) := by
+  obtain ⟨⟨w1, w2, w3, w4, w5⟩, hl⟩ := i
+  have hsl : (st.addCert c).slot = st.slot := ((SameVotes.addCert st c).slot).symm
+  have hl' : ∀ x, x ∈ st.certs → LogItem.cert x ∈ L := hl
+  simp only [mem_certs] at hl'
+  unfold HL WF
+  simp only [mem_certs, hsl]
+  unfold SlotState.addCert
+  cases hk : c.kind <;> dsimp only
+  · refine ⟨⟨fun x hx => ?_, w2, w3, w4, w5⟩, fun x hx => ?_⟩
+    · cases hx; exact ⟨hk, hs.symm⟩
+    · rcases hx with h | h | h | h | h
+      · exact hl' x (Or.inl h)
+      · exact hl' x (Or.inr (Or.inl h))
+      · cases h; exact hm
+      · exact hl' x (Or.inr (Or.inr (Or.inr (Or.inl h))))
+      · exact hl' x (Or.inr (Or.inr (Or.inr (Or.inr h))))
+  · split
+    · exact ⟨⟨w1, w2, w3, w4, w5⟩, hl'⟩
+    · refine ⟨⟨w1, fun x hx => ?_, w3, w4, w5⟩, fun x hx => ?_⟩
+      · rcases List.mem_append.mp hx with h | h
+        · exact w2 x h
+        · simp at h; subst h; exact ⟨hk, hs.symm⟩
+      · rcases hx with h | h | h | h | h
+        · exact hl' x (Or.inl h)
+        · exact hl' x (Or.inr (Or.inl h))
+        · exact hl' x (Or.inr (Or.inr (Or.inl h)))
+        · rcases List.mem_append.mp h with h | h
+          · exact hl' x (Or.inr (Or.inr (Or.inr (Or.inl h))))
+          · simp at h; subst h; exact hm
+        · exact hl' x (Or.inr (Or.inr (Or.inr (Or.inr h))))
+  · refine ⟨⟨w1, w2, fun x hx => ?_, w4, w5⟩, fun x hx => ?_⟩
+    · cases hx; exact ⟨hk, hs.symm⟩
+    · rcases hx with h | h | h | h | h
+      · exact hl' x (Or.inl h)
+      · exact hl' x (Or.inr (Or.inl h))
+      · exact hl' x (Or.inr (Or.inr (Or.inl h)))
+      · exact hl' x (Or.inr (Or.inr (Or.inr (Or.inl h))))
+      · cases h; exact hm
+  · refine ⟨⟨w1, w2, w3, fun x hx => ?_, w5⟩, fun x hx => ?_⟩
+    · cases hx; exact ⟨hk, hs.symm⟩
+    · rcases hx with h | h | h | h | h
+      · exact hl' x (Or.inl h)
+      · cases h; exact hm
+      · exact hl' x (Or.inr (Or.inr (Or.inl h)))
+      · exact hl' x (Or.inr (Or.inr (Or.inr (Or.inl h))))
+      · exact hl' x (Or.inr (Or.inr (Or.inr (Or.inr h))))
+  · refine ⟨⟨w1, w2, w3, w4, fun x hx => ?_⟩, fun x hx => ?_⟩
+    · cases hx; exact ⟨hk, hs.symm⟩
+    · rcases hx with h | h | h | h | h
+      · cases h; exact hm
+      · exact hl' x (Or.inr (Or.inl h))
+      · exact hl' x (Or.inr (Or.inr (Or.inl h)))
+      · exact hl' x (Or.inr (Or.inr (Or.inr (Or.inl h))))
+      · exact hl' x (Or.inr (Or.inr (Or.inr (Or.inr h))))
+
+theorem hl_poolStep (p : Pool) (op : PoolOp) (L : List LogItem) (hall : AllSlots p (HL L)) :
+    AllSlots (poolStep p op).1 (HL (L ++ stepItems op (poolStep p op).2)) := by
+  have hmono : AllSlots p (HL (L ++ stepItems op (poolStep p op).2)) :=
+    fun st hst => (hall st hst).mono (fun _ hx => List.mem_append_left _ hx)
+  have hce : ∀ a b, CoreEq a b → HL (L ++ stepItems op (poolStep p op).2) a → HL (L ++ stepItems op (poolStep p op).2) b :=
+    fun a b h i => i.of_certsEq (CertsEq.of_coreEq h)
+  cases op with
+  | vote v =>
+    show AllSlots (p.addVote v).1 _
+    rcases addVote_shape p v with ⟨h1 | h1, _⟩ | ⟨_, h2, h3⟩
+    · rw [h1]; exact hmono
+    · rw [h1]; exact (slotState_spec p v.slot _ hmono (HL.fresh _ _)).1
+    · rw [h2]
+      apply allSlots_addValidCerts _ (HL.fresh _) hce _ _ []
+      · apply allSlots_addVoteQ _ (HL.fresh _) hce p v hmono
+        intro st i _; exact i.of_certsEq (slot_addVote_certsEq _ _ _)
+      · intro c hc st i hs
+        apply i.addCert _ hs
+        apply List.mem_append_right
+        simp only [stepItems, poolStep, List.nil_append, h3]
+        exact List.mem_map.mpr ⟨c, hc, rfl⟩
+  | cert c =>
+    show AllSlots (p.addCert c).1 _
+    rcases addCert_shape p c with ⟨h1 | h1, _⟩ | ⟨_, h2, h3⟩
+    · rw [h1]; exact hmono
+    · rw [h1]; exact (slotState_spec p c.slot _ hmono (HL.fresh _ _)).1
+    · apply allSlots_addCert _ (HL.fresh _) hce p c hmono
+      intro st i hs
+      apply i.addCert _ hs
+      apply List.mem_append_right
+      simp only [stepItems, poolStep, List.nil_append, h3]
+      exact List.mem_singleton.mpr rfl
+  | block b par =>
+    show AllSlots (p.addBlock b par).1 _
+    apply allSlots_addBlock _ (HL.fresh _) hce p b par hmono
+    intro st i; exact i.of_certsEq (notifyParentKnown_certsEq _ _)
+
+/-- **Every held certificate was logged**, in every pool reachable from a pool with this property. -/
+theorem hl_poolRun (ops : List PoolOp) (p : Pool) (L : List LogItem) (hall : AllSlots p (HL L)) :
+    AllSlots (poolRun p ops).1 (HL (L ++ poolLog p ops)) := by
+  induction ops generalizing p L with
+  | nil => simpa [poolLog, poolRun] using hall
+  | cons op ops ih =>
+    simp only [poolLog, poolRun]
+    rw [← List.append_assoc]
+    exact ih _ _ (hl_poolStep p op L hall)
+
 end AgModel.Pool
